@@ -383,7 +383,9 @@ def finish(ctx: Ctx, level: str = "proof") -> int:
     if ctx.corr_broken:
         names = sorted({d["correspondence"] for d in ctx.corr_broken})
         broken += [f"correspondence: {n}" for n in names]
-    if broken and reported == 0 and not any(l.startswith("KNOWN-FINDING") for l in lines):
+    # a known finding explains oracle failures with its own key only: a theorem or correspondence that no longer
+    # checks is reported even when known findings were printed
+    if broken and reported == 0:
         path = write_replay(ctx, "broken", {
             "property": ctx.prop, "no_longer_checks": broken,
             "disagreements": ctx.corr_broken[:10],
@@ -392,10 +394,6 @@ def finish(ctx: Ctx, level: str = "proof") -> int:
             "seed": ctx.seed, "tier": ctx.tier})
         lines.append(f"VIOLATION property={ctx.prop} replay={path} no-failing-input-found")
         exit_code = 1
-    elif broken and reported == 0:
-        # only known findings explain the breakage; still say what does not check
-        for b in broken:
-            lines.append(f"note: {b} (explained by the known finding above)")
 
     coverage: Dict[str, Any] = {
         "obligations": pr_.obligations if pr_ else 0,
